@@ -78,8 +78,8 @@ func reportStrategy(name string, n []int, f []float64) (strategy.Strategy, strin
 }
 
 var defaultNs = map[string][]int{"Macd": {3, 5, 2}, "Rsi": {4}, "Bop": {}, "BuyAndHold": {}, "Trix": {2}, "Vwma": {3},
-	"GoldenCross": {2, 5}, "Kdj": {3, 2, 2}, "Smma": {2, 4}, "Alligator": {4, 3, 2}}
-var defaultFs = map[string][]float64{"Rsi": {30, 70}}
+	"GoldenCross": {2, 5}, "Kdj": {3, 2, 2}, "Smma": {2, 4}, "Alligator": {4, 3, 2}, "SuperTrend": {5, 4}}
+var defaultFs = map[string][]float64{"Rsi": {30, 70}, "SuperTrend": {2.5}}
 
 func runReport(name, ns, fs, streams string, zeroDate int) (result string) {
 	defer func() {
